@@ -8,7 +8,7 @@ ALLOWED_AXIOMS = {"Classical_Prop.classic", "ClassicalDedekindReals.sig_not_dec"
                   "ClassicalDedekindReals.sig_forall_dec",
                   "FunctionalExtensionality.functional_extensionality_dep"}
 MANIFEST = {
-    "text": "Coq theorems over the broker model: read_entry hands out an entry only with can_read = Ok at that moment; initial snapshots and change notifications contain only readable entries and the stored state; for EVERY history no message ever put into a subscriber's stream names a signal outside the subscriber's scopes (history invariant by induction over all operations); an expired subscription receives nothing more and is removed by housekeeping. Tied to the code by generated histories with adversarial scope sets (partial names, '*' levels, actions that imply read) and tokens that expire mid-history (real clock), diffed operation by operation against the real AuthorizedAccess API; a permission oracle independent of the model judges every value in every implementation message.",
+    "text": "Coq theorems over the broker model: read_entry hands out an entry only with can_read = Ok at that moment; initial snapshots and change notifications contain only readable entries and the stored state; for EVERY history no message ever put into a subscriber's stream names a signal outside the subscriber's scopes (history invariant by induction over all operations); an expired subscription receives nothing more and is removed by housekeeping. Tied to the code by generated histories with adversarial scope sets (partial names, '*' levels, actions that imply read) and tokens that expire mid-history (real clock), diffed operation by operation against the real AuthorizedAccess API; a permission oracle independent of the model judges every value in every implementation message. Second part: reads and subscriptions through the gRPC handlers (v1 Get with every view, v2 GetValue(s), sdv GetDatapoints; kuksa.val.v1 Subscribe, kuksa.val.v2 Subscribe / SubscribeById) by principals with partial and expiring scopes, rewritten into core operations for the same non-disclosure clauses; theorem c03_v1_subscribe_only_readable.",
     "note": "Trusted: Coq kernel; the 4 standard-library axioms that enter through Flocq (used by validate's float comparisons) as printed by Print Assumptions; extraction + OCaml driver (vm_compute cross-check each run); harness/src/fam_hist.rs and hook H3 (verif_housekeeping_step); the Python monitors. Modelled, not verified: tokio broadcast (ring with capacity rounded up to a power of two, Lagged skipping) and RwLock, HashMap iteration order (outputs are sorted), the gRPC handlers on top of AuthorizedAccess (exercised by the handler-level checks), SystemTime (a timestamp is canonicalised to the operation during which it was taken; expiry is crossed in real time at a TICK).",
 }
 PROPS = set("C03".split(","))
@@ -33,3 +33,61 @@ nontrivial = B.nontrivial
 histogram = B.histogram
 pretty = B.pretty
 neighbours = B.neighbours
+
+
+class Core:
+    """subscriptions through the in-process API"""
+    FAM = 1
+    generate = staticmethod(generate)
+    monitor = staticmethod(monitor)
+    nontrivial = staticmethod(nontrivial)
+    histogram = staticmethod(histogram)
+    pretty = staticmethod(pretty)
+    neighbours = staticmethod(neighbours)
+
+
+class HandlerSubs:
+    """reads and subscriptions through the gRPC handlers (v1 Get, v2 GetValue(s), sdv GetDatapoints; kuksa.val.v1
+    Subscribe by leaf / branch path and field set, kuksa.val.v2 Subscribe by paths and SubscribeById) by principals
+    with partial and expiring scopes; handler traffic is rewritten into core operations and judged by the same
+    non-disclosure clauses"""
+    FAM = 1
+
+    @staticmethod
+    def generate(rng, tier):
+        n = 150 if tier == "quick" else 4000
+        # handler subscriptions, and the reading handlers of the three services (v1 Get with every view, v2
+        # GetValue(s), sdv GetDatapoints) by principals with partial and expiring scopes
+        api = dict(H.W_API, tick=1.2, v1get=5, v2get=4, v2gets=3, sdvget=4)
+        return [("hs%d" % i, H.gen_history(rng, H.W_APISUB if i % 2 else api, plain_meta=0.6)) for i in range(n)]
+
+    @staticmethod
+    def compare(lines, m, i):
+        # over kuksa.val.v1 a datapoint without a value is absent (and its timestamp with it)
+        return H.canon_messages(m) == H.canon_messages(i)
+
+    monitor = staticmethod(monitor)
+    pretty = staticmethod(pretty)
+    neighbours = staticmethod(neighbours)
+
+    @staticmethod
+    def nontrivial(lines, out):
+        al = H.split_outputs(lines, out)
+        if al is None:
+            return None
+        ok = any(d["op"] in (H.V1SUB, H.V2SUB) and o and o[0][:1] == [0] for d, o in al)
+        got = any(d["name"] == "RECV" and len(o) > 1 for d, o in al)
+        return hash(tuple(map(tuple, lines))) if ok and got else None
+
+    @staticmethod
+    def histogram(lines, out):
+        al = H.split_outputs(lines, out)
+        h = ["op:" + (H.OPN[l[0]] if 0 <= l[0] < len(H.OPN) else "?") for l in lines]
+        if al:
+            for d, o in al:
+                if d["op"] in (H.V1SUB, H.V2SUB) and o:
+                    h.append("%s -> %s" % (d["name"], "ok" if o[0][:1] == [0] else "status %s" % o[0][1:2]))
+        return h
+
+
+PARTS = [Core, HandlerSubs]
